@@ -1145,6 +1145,9 @@ func EvalProgram(progSrc string, files []InputFile, rootSelectors []string, stdo
 			if err == errExit {
 				return &ev, nil
 			}
+			if err == errNext {
+				continue
+			}
 			return &ev, err
 		}
 	}
@@ -1186,6 +1189,9 @@ func EvalProgram(progSrc string, files []InputFile, rootSelectors []string, stdo
 						if err == errExit {
 							return &ev, nil
 						}
+						if err == errNext {
+							continue
+						}
 						return &ev, err
 					}
 				}
@@ -1206,6 +1212,9 @@ func EvalProgram(progSrc string, files []InputFile, rootSelectors []string, stdo
 						if err == errExit {
 							return &ev, nil
 						}
+						if err == errNext {
+							continue
+						}
 						return &ev, err
 					}
 				}
@@ -1219,6 +1228,9 @@ func EvalProgram(progSrc string, files []InputFile, rootSelectors []string, stdo
 		if err := ev.evalStatement(rule.Body); err != nil {
 			if err == errExit {
 				return &ev, nil
+			}
+			if err == errNext {
+				continue
 			}
 			return &ev, err
 		}
